@@ -361,13 +361,17 @@ func GenC14(rng *h.Rng, tier string, emit func(string)) {
 	h.EmitStats(emit, st)
 }
 
-// Main dispatches: `worker` runs cases in this process; otherwise the standard gen/run protocol,
-// with run forwarding each case to a worker child.
+// Main dispatches: `worker` runs cases in this process; `run` streams the cases through a worker
+// child (restarted when a case kills it); `gen` is the standard generator protocol.
 func Main(gen func(rng *h.Rng, tier string, emit func(string))) {
 	if len(os.Args) > 1 && os.Args[1] == "worker" {
 		WorkerLoop()
 		return
 	}
 	logger.Disable()
+	if len(os.Args) > 1 && os.Args[1] == "run" {
+		RunAll()
+		return
+	}
 	h.Main(gen, RunViaWorker)
 }
